@@ -211,7 +211,10 @@ def run_property(prop: str, tier: str, specs, *, level="model_checking", crash_i
                 if r["k"] == "M":
                     v.mismatch(f"INS history {r['h']} event {r['l']}: {r['c']}")
                 elif r["p"] in {prop, *also}:
-                    sig = sig_of(r) if sig_of else "ins:" + r["c"].split(":")[0]
+                    if "within eps of the unit-hypercube boundary" in r["c"]:
+                        sig = "ins_density_at_clipped_boundary"
+                    else:
+                        sig = sig_of(r) if sig_of else "ins:" + r["c"]
                     h = ihs[r["h"]]
                     v.violation(sig, f"{r['p']} clause '{r['c']}' fails at event {r['l']} "
                                 f"({r['ev']['ev'] if r['ev'] else '?'}) of INS history {r['h']} "
